@@ -55,7 +55,7 @@ BaseContents == << <<Q>>, <<Q, Q>>, <<120, Q>>, <<Q, 32, 79, 82, 32, Q, 49, Q, 6
                \* runs of adjacent quotes (an escaping rule that looks at neighbours treats them differently from isolated ones)
                \* parentheses, and text that a formatting / templating step would interpret
                <<40>>, <<41>>, <<41, 40>>, StrCps("{length}"), StrCps("{"), StrCps("{}"), StrCps("{0}"), StrCps("%s"), StrCps("%(x)s"), StrCps("$1"),
-               StrCps("\\1"), <<Q, Q, Q>>, <<120, Q, Q, Q, 32, 79, 82, 32, 49, 61, 49, 32, 45, 45>>, <<Q, Q, Q, Q>>, <<Q, 120, Q, Q>> >>
+               StrCps("\\1"), StrCps(":search"), StrCps(":string"), StrCps(":s"), StrCps(":1"), StrCps("?"), StrCps("@p0"), <<Q, Q, Q>>, <<120, Q, Q, Q, 32, 79, 82, 32, 49, 61, 49, 32, 45, 45>>, <<Q, Q, Q, Q>>, <<Q, 120, Q, Q>> >>
 HostileAlphabet == {Q, 92, 37, 95, 45, 59, 47, 42, 0, 120, 34, 10, 40, 41, 124, 61, 8217}
 DeepContents == SetToSeq(({ <<c>> : c \in HostileAlphabet } \cup { <<c, d>> : c \in HostileAlphabet, d \in HostileAlphabet }) \ {Benign})
 Contents == IF Deep THEN BaseContents \o DeepContents ELSE BaseContents
